@@ -3,8 +3,8 @@ CONSTANTS
   Subs = {1, 2}
   Amounts = {1, 2}
   Funds <- FundsSmall
-  NativeMetas = {0, 1}
-  SpecialIds = {1, 2, 3, 4, 5}
+  NativeMetas = {0}
+  SpecialIds = {1, 2, 3, 4}
   MaxOps = 5
   MaxMinted = 3
 INIT Init
